@@ -1949,6 +1949,9 @@ impl Context {
                 let base_ptr = self.eval_expr_as_address(base_expr);
 
                 let record_ty_id = self.typeenv.infer_type(base_expr).unwrap();
+                // Records are laid out with their fields sorted by name; look the field up in that layout
+                // (as eval_destination_ptr and field reads do), not in the order an annotation wrote them.
+                let record_ty_id = self.canonical_record_type_id(record_ty_id);
                 let record_ty = record_ty_id.to_type();
 
                 if let Type::Record(fields) = record_ty {
